@@ -57,9 +57,22 @@ def main():
     except core.MachineryError as e:
         print(f"MACHINERY-ERROR {a.prop}: {e}", file=sys.stderr)
         sys.exit(2)
-    except Exception:
+    except Exception as e:
         traceback.print_exc()
-        sys.exit(2)
+        if a.replay:
+            sys.exit(2)
+        # The harness could not finish comparing the implementation with the model: values of an unexpected shape or type came
+        # back from /repo (on the pinned sources every check runs to completion).  That is a broken correspondence, not a
+        # verdict: whatever the oracles found so far is reported with its replay, otherwise the replay names the failure and
+        # the line ends with no-failing-input-found.
+        tb = traceback.format_exc()
+        ctx.corr_break("harness", {"source_delta": [f"{f}::{u}" for f, u in ctx.delta]},
+                       {"harness could not complete": f"{type(e).__name__}: {e}", "traceback_tail": tb[-1500:]})
+        try:
+            rc = ctx.finish()
+        except Exception:
+            traceback.print_exc()
+            sys.exit(2)
     sys.exit(rc)
 
 
